@@ -201,6 +201,19 @@ func Checks() map[string]*simcore.Check {
 			Gen:        genC17, Decode: decodePlan, Run: runPlan, Shrink: shrinkPlan,
 			ProbeNames: []string{"recover-done", "recover-refused", "recover-inside-buffer", "recover-across-buffer-boundary", "recover-on-disk", "recoverable-roots", "disk-image-checked", "history-tail-pruned"},
 		},
+		"C18": {
+			ID: "C18", Engine: "pathdbsim", Level: "exploration",
+			Rule: "plan = knobs with EnableStateIndexing (history limit 0 or 2-30 so tails get pruned, trienode histories in 30% of runs, sync/async flush) + 1-3 incarnations of 6-150 operations (Update, Commit, Recover followed by new forks, historical reads) joined by clean Journal+reopen (restart with a partially built index); the main actor, 0-2 historical-reader actors, the flusher and the indexer/pruner goroutines are interleaved at every SimKV gate by the tape. Every successful HistoricReader read (account by address, slot by raw key; trie nodes through HistoricNodeReader in sweeps) must equal the model value of that state; a reader for a root that is not a retained canonical state below the disk layer is a violation; refusals and errors are accepted while a mutation overlaps or the index is incomplete. At the end of every phase the indexer is given (virtual) time to go idle and then every state ever produced is swept: retained canonical roots must be served completely, all others refused. Non-trivial = at least one successful historical read; distinct = distinct (schedule, model states) fingerprints.",
+			Assumptions: []string{
+				"a historical read overlapped by a Recover is not judged (the handle may legitimately see the new branch); reads overlapped by Update/Commit only must still return right values",
+				"the chain-head keys the indexer consults to decide 'syncing' are absent; NoHistoryIndexDelay makes it index at once",
+			},
+			Components: simcore.Components{Real: append([]string{"triedb/pathdb historyIndexer (indexIniter, batchIndexer, indexSingle/unindexSingle, pruner), HistoricalStateReader, HistoricalNodeReader, stateHistoryReader/trienodeReader, index blocks"}, realComponents...), Stub: stubComponents},
+			Perturbed:  []string{"select among ready channels inside the indexer run loop", "map iteration order in batches"},
+			Runs:       map[string]int{"quick": 800, "thorough": 20000},
+			Gen:        genC18, Decode: decodePlan, Run: runPlan, Shrink: shrinkPlan,
+			ProbeNames: []string{"historic-read-ok", "historic-node-read-ok", "historic-refused-unreadable-root", "historic-refused-index-incomplete", "indexer-idle", "history-tail-pruned", "recover-done", "journal-reopen"},
+		},
 		"C20": {
 			ID: "C20", Engine: "pathdbsim", Level: "fault_enumeration",
 			Rule: "plan = knobs (maxDiffLayers 2-6, tiny write buffers, history limits, trienode histories on/off, sync/async flush, journal in KV or in a journal file) + 1-3 incarnations of 5-80 operations (Update with forks, Commit, Recover) each ended by a clean Journal+Close+reopen or left running; every key-value mutation unit (single put/delete or one atomic batch, SyncKeyValue barriers) and every file mutation/fsync of the history freezers and the journal file is recorded with one global sequence number. The run is then cut after every sequence number (quick: 40 sampled cuts, half of them right before/after a key-value unit) and each cut is materialised as a process-crash image and 1-3 power-loss images (per file a drawn prefix of its unsynced writes, torn or zero-filled last write; key-value store minus up to 4 unsynced trailing units) and the real pathdb.New reopens on it. Oracle per reboot: opens without panic/log.Crit; the raw flat-state and trie-node key spaces are exactly the model state whose root/id the store records; state (and trienode) history head == disk layer id, tail <= persisted id and within the limit; layers above the persisted state only if the image holds a journal for that disk root and then exactly one recorded journal's layers, each reading as its model state; a journal completed right before a process crash is used; Recoverable agrees with the model for every state, Recover to a random and to the deepest recoverable root restores that state (C17 oracle), two new Updates and a Commit succeed. evaluations = runs, reboots = crash states reopened. Non-trivial = run with >= 1 flatten and > 2 reboots; distinct = distinct model-state fingerprints.",
